@@ -77,6 +77,10 @@ def create_lattice_elements(cell_centers: list, **kwargs) -> tuple:
 
                     vertex_number_2 = get_vertex_number(v1, new_vertices)
 
+                    if vertex_number_1 == vertex_number_2:
+                        # both corners round to the same point: degenerate ridge, no edge to create
+                        continue
+
                     enum = get_enum([vertex_number_1, vertex_number_2], new_edges)
 
                     temp_big_edge.append(enum)
